@@ -643,13 +643,13 @@ package moss
 //@   ensures @base (rvBase != nil) <==> (footerStack(footer) != nil && splicePoint > 0)
 //@   ensures @baseSeq rvBase != nil ==> fresh(rvBase) && rvBase.a == footer.ss.a[0:splicePoint]
 //@   ensures @children forall c string :: has(higher.childSegStacks, c) ==> has(rv.childSegStacks, c) &&
-//@       mergedSeq(rv.childSegStacks[c], footerStack(liveChildFooter(footer, c, higher.childSegStacks[c].incarNum)), splicePoint, higher.childSegStacks[c])
+//@       mergedSeq(rv.childSegStacks[c], footerStack(liveChildFooter(footer, c, higher.childSegStacks[c].incarNum)), 0, higher.childSegStacks[c])
 //@   loop 1: modifies rv.childSegStacks
 //@   loop 1: invariant rv != nil && fresh(rv) && fresh(arr(rv.a)) && mergedSeq(rv, footerStack(footer), splicePoint, higher)
 //@   loop 1: invariant rvBase != nil ==> fresh(rvBase)
 //@   loop 1: invariant rv.childSegStacks != nil ==> sinceLoop(rv.childSegStacks)
 //@   loop 1: invariant @children forall c string :: visited(c) ==> has(rv.childSegStacks, c) &&
-//@       mergedSeq(rv.childSegStacks[c], footerStack(liveChildFooter(footer, c, higher.childSegStacks[c].incarNum)), splicePoint, higher.childSegStacks[c])
+//@       mergedSeq(rv.childSegStacks[c], footerStack(liveChildFooter(footer, c, higher.childSegStacks[c].incarNum)), 0, higher.childSegStacks[c])
 
 // ---- building the footer of a persistence round (C04, C11, C12) --------------------------------------
 
@@ -677,3 +677,26 @@ package moss
 //@   loop 1: invariant forall c string :: visited(c) ==> has(footer.ChildFooters, c) &&
 //@       extendsFooter(footer.ChildFooters[c], liveChildFooter(storeFooter, c, ss.childSegStacks[c].incarNum), ss.childSegStacks[c])
 //@   loop 1: invariant forall c string :: has(footer.ChildFooters, c) ==> visited(c)
+
+// ---- partial compaction: splicing the retained prefix back in (C07, C11) ---------------------------
+
+// right.SegmentLocs == left.SegmentLocs[0:sp] ++ old(right.SegmentLocs); child
+// footers are left alone (child collections are compacted fully).
+//@ func (right *Footer) spliceFooter(left *Footer, splicePoint int)
+//@   props C07 C11
+//@   requires @args right != nil && left != nil && right != left && 0 <= splicePoint && splicePoint <= len(left.SegmentLocs)
+//@   modifies right.SegmentLocs
+//@   ensures @len len(right.SegmentLocs) == splicePoint + old(len(right.SegmentLocs))
+//@   ensures @prefix forall i int :: 0 <= i && i < splicePoint ==> right.SegmentLocs[i] == old(left.SegmentLocs[i])
+//@   ensures @suffix forall k int :: splicePoint <= k && k < splicePoint + old(len(right.SegmentLocs)) ==> right.SegmentLocs[k] == old(right.SegmentLocs[k - splicePoint])
+
+// The footer written by a compaction belongs to the incarnation of the stack
+// it was built from and has exactly that stack's children.
+//@ func (s *Store) writeSegments(newSS, base *segmentStack, frefCompact *FileRef, fileCompact File, includeDeletes bool, syncAfterBytes int) (compactFooter *Footer, err error)
+//@   props C07 C11
+//@   attr obligations ensures
+//@   requires newSS != nil
+//@   modifies *
+//@   ensures @incar err == nil ==> compactFooter != nil && compactFooter.incarNum == newSS.incarNum
+//@   ensures @oneSegment err == nil ==> len(compactFooter.SegmentLocs) == 1
+//@   loop 1: invariant compactFooter != nil && fresh(compactFooter) && compactFooter.incarNum == newSS.incarNum && len(compactFooter.SegmentLocs) == 1
